@@ -126,7 +126,10 @@ class SchemaGen:
         if k < 0.7:
             self.use("string_constrained")
             s = {"type": "string"}
-            c = r.randrange(4)
+            c = r.randrange(5)
+            if c == 4:
+                s["minLength"] = s["maxLength"] = r.randrange(1, 5)   # fixed length (counted in scalar values)
+                return s
             if c in (0, 3):
                 s["minLength"] = r.randrange(0, 4)
             if c in (1, 3):
